@@ -153,7 +153,7 @@ def run_shard(acc, shard, nshards, seed, tier):
     known = runner.known_signatures('C01')
 
     general = sessions.session(minutes=(60, 150) if tier == 'quick' else (60, 400), align_len=True, program=dict(busy=True), data_only_symbol=True,
-                               modes=('cross', 'isolated'), leverages=(1, 2, 5, 10, 25, 50, 100), candle_opts=dict(spin_ps=(0, 0, 3)))
+                               modes=('cross', 'isolated'), leverages=(1, 2, 5, 10, 25, 50, 100), candle_opts=dict(spin_ps=(0, 0, 3)), unaligned_warmup=True)
     # held, highly leveraged isolated positions with far resting exits: liquidations inside the prefix
     levered = sessions.session(minutes=(60, 150) if tier == 'quick' else (60, 400), kinds=('futures',), modes=('isolated',), leverages=(20, 50, 100, 125),
                                tfs=('3m', '5m', '15m', '1m'), max_data=1, warmup=(False,), align_len=True, structural=False,
